@@ -233,7 +233,13 @@ def mod(number, divisor):
     if divisor == 0:
         return DIV0
 
-    return number % divisor
+    if isinstance(number, int) and isinstance(divisor, int):
+        return number % divisor
+
+    # number - divisor * INT(number / divisor), in decimal as the binary
+    # floating point remainder of -25 and -0.1 is -0.0999999999999986
+    number, divisor = Decimal(repr(number)), Decimal(repr(divisor))
+    return float(number - divisor * math.floor(number / divisor))
 
 
 @excel_helper(cse_params=None, err_str_params=-1, number_params=0)
